@@ -23,7 +23,7 @@ def nonterm_replay(pid, h, r):
     os.makedirs(os.path.join(runner.REPLAYS, pid), exist_ok=True)
     rpath = os.path.join(runner.REPLAYS, pid, h.short + ".json")
     json.dump({"property_id": pid, "crate": crate, "harness": h.name, "kind": "non-termination",
-               "native_test": "cargo test walk_terminates_for_child_of_root (in harness/h-slice, after pre_build.py)",
+               "native_test": "cargo test walk_terminates_for_child_of_root (in harness/h-slice, after pre_build.py)", "test_filter": "walk_terminates_for_child_of_root",
                "input": "updates = [HEAD (root), refs/heads/main (parent_index = Some(0))]; the lock on the child fails",
                "reproduced": bool(failed), "tail": out[-1500:]}, open(rpath, "w"), indent=1)
     return (True if failed else (False if ran else None)), rpath
